@@ -1,4 +1,148 @@
-(* Assign.v -- stub; the model that belongs here is being written. *)
-From P7 Require Import Prelude.
+(* Assign.v -- py7zr's assignment of header entries to sub-streams, folders and
+   worker ids: SevenZipFile._real_get_contents / _get_fileinfo_sizes (py7zr.py
+   430-527, 738-760), the id arithmetic of ArchiveFileList(offset) used by the
+   multi-folder paths of Worker.extract (1288-1339), and the kind decision of
+   _extract (is_directory from the attribute word).  Definitions first. *)
+From P7 Require Import Prelude PyPrims Number Header Spec.
 Open Scope Z_scope.
-Definition assign_dispatch (fn : Z) (a : tree) : tree := TL [TI (-2)].
+
+Record iplan := mkIPlan {
+  ip_name : option (list Z); ip_kind : Z; ip_folder : Z; ip_offset : Z; ip_size : Z; ip_crc : option Z;
+  ip_mtime : option Z; ip_attr : option Z;
+  ip_id : Z          (* the id under which the worker looks this member's output up *) }.
+
+Definition attr_is_dir (a : option (option Z)) : bool :=
+  match a with Some (Some v) => negb (Z.land v 16 =? 0) | _ => false end.
+
+Definition nthZ {A} (l : list A) (i : Z) : res A :=
+  if i <? 0 then Err EOther else match nth_error l (Z.to_nat i) with Some x => Ok x | None => Err EOther end.
+
+(* ParseStatus: folder, outstreams, input ; plus per-folder bookkeeping we need for offsets and ids:
+   for each folder index the (first file id, number of files so far, bytes so far) *)
+Record fstat := mkFstat { fs_first : Z; fs_count : Z; fs_bytes : Z }.
+
+Fixpoint upd_fstat (l : list (Z * fstat)) (fo : Z) (fid size : Z) : list (Z * fstat) * fstat :=
+  match l with
+  | [] => ([(fo, mkFstat fid 1 size)], mkFstat fid 0 0)
+  | (k, s) :: r =>
+      if k =? fo then ((k, mkFstat (fs_first s) (fs_count s + 1) (fs_bytes s + size)) :: r, s)
+      else let '(r', old) := upd_fstat r fo fid size in ((k, s) :: r', old)
+  end.
+
+Fixpoint assign_loop (multi : bool) (files : list fileent) (fid : Z)
+         (nums sizes : list Z) (dd : list bool) (dg : list Z)
+         (folder outstreams input : Z) (fstats : list (Z * fstat)) (nfolders : Z) : res (list iplan) :=
+  match files with
+  | [] => Ok []
+  | e :: r =>
+      let kind_of := fun (empty : bool) => if attr_is_dir (e_attr e) then 2 else if empty then 1 else 0 in
+      if e_emptystream e then
+        do rest <- assign_loop multi r (fid + 1) nums sizes dd dg folder outstreams input fstats nfolders;
+        Ok (mkIPlan (e_name e) (kind_of true) (-1) 0 0 None (flat_opt (e_mtime e)) (flat_opt (e_attr e)) fid :: rest)
+      else
+        (* folder = folders[pstat.folder] *)
+        if (folder <? 0) || (nfolders <=? folder) then Err EOther else
+        do n <- nthZ nums folder;
+        do size <- nthZ sizes outstreams;
+        do d <- nthZ dd outstreams;
+        do g <- nthZ dg outstreams;
+        let '(fstats', old) := upd_fstat fstats folder fid size in
+        let id := if multi then fs_first old + fs_count old else fid in
+        let p := mkIPlan (e_name e) (kind_of false) folder (fs_bytes old) size (if d then Some g else None)
+                         (flat_opt (e_mtime e)) (flat_opt (e_attr e)) id in
+        let input' := input + 1 in
+        do rest <- (if n <=? input'
+                    then assign_loop multi r (fid + 1) nums sizes dd dg (folder + 1) (outstreams + 1) 0 fstats' nfolders
+                    else assign_loop multi r (fid + 1) nums sizes dd dg folder (outstreams + 1) input' fstats' nfolders);
+        Ok (p :: rest)
+  end.
+
+(* _real_get_contents on a parsed header graph *)
+Definition impl_plans (h : header) : res (list iplan) :=
+  match h_files h with
+  | None => Ok []
+  | Some files =>
+      match h_streams h with
+      | None =>
+          (* no main streams: every non-empty entry hits `folders is not None` = False -> treated as empty *)
+          Ok (map (fun '(i, e) =>
+                     mkIPlan (e_name e) (if attr_is_dir (e_attr e) then 2 else if e_emptystream e then 1 else 0)
+                             (-1) 0 0 None (flat_opt (e_mtime e)) (flat_opt (e_attr e)) i)
+                  (py_enumerate files))
+      | Some st =>
+          match si_folders st, si_pack st with
+          | Some folders, Some _ =>
+              let has_data := existsb (fun e => negb (e_emptystream e)) files in
+              match si_sub st with
+              | None =>
+                  if has_data then Err EOther     (* subinfo.digestsdefined: AttributeError *)
+                  else assign_loop false files 0 [] [] [] [] 0 0 0 [] (zlen folders)
+              | Some sub =>
+                  do sizes <- (match s_sizes sub with
+                               | Some sz => Ok sz
+                               | None => (* [x.unpacksizes[-1] for x in folders] *)
+                                   (fix go (fs : list folder) : res (list Z) :=
+                                      match fs with
+                                      | [] => Ok []
+                                      | f :: r => do v <- py_index (f_unpacksizes f) (-1); do t <- go r; Ok (v :: t)
+                                      end) folders
+                               end);
+                  assign_loop (negb (zlen folders =? 1)) files 0 (s_nums sub) sizes
+                              (Header.s_digestsdefined sub) (Header.s_digests sub) 0 0 0 [] (zlen folders)
+              end
+          | _, _ => Err EOther                     (* AttributeError on None *)
+          end
+      end
+  end.
+
+(* what conformance means, entry by entry: same name, kind, folder, offset, size, CRC, time, attributes,
+   and the output is looked up under the entry's own index *)
+Definition plan_agrees (i : Z) (s : plan) (p : iplan) : bool :=
+  let oeq := fun (a b : option Z) => match a, b with
+                                      | Some x, Some y => x =? y | None, None => true | _, _ => false end in
+  (match pl_name s, ip_name p with
+   | Some a, Some b => (fix eq (a b : list Z) := match a, b with
+                                                | [], [] => true | x :: a', y :: b' => (x =? y) && eq a' b'
+                                                | _, _ => false end) a b
+   | None, None => true | _, _ => false end)
+  && (pl_kind s =? ip_kind p)
+  && ((negb (pl_kind s =? 0)) || ((pl_folder s =? ip_folder p) && (pl_offset s =? ip_offset p)
+                                  && (pl_size s =? ip_size p) && oeq (pl_crc s) (ip_crc p)))
+  && oeq (pl_mtime s) (ip_mtime p) && oeq (pl_attr s) (ip_attr p)
+  && (ip_id p =? i).
+
+Fixpoint plans_agree (i : Z) (ss : list plan) (ps : list iplan) : bool :=
+  match ss, ps with
+  | [], [] => true
+  | s :: sr, p :: pr => plan_agrees i s p && plans_agree (i + 1) sr pr
+  | _, _ => false
+  end.
+
+(* ---- tree glue ---- *)
+Definition t_plan (p : plan) : tree :=
+  TL [t_opt (fun n => TL (map TI n)) (pl_name p); TI (pl_kind p); TI (pl_folder p); TI (pl_offset p); TI (pl_size p);
+      t_opt TI (pl_crc p); t_opt TI (pl_mtime p); t_opt TI (pl_attr p)].
+Definition t_iplan (p : iplan) : tree :=
+  TL [t_opt (fun n => TL (map TI n)) (ip_name p); TI (ip_kind p); TI (ip_folder p); TI (ip_offset p); TI (ip_size p);
+      t_opt TI (ip_crc p); t_opt TI (ip_mtime p); t_opt TI (ip_attr p); TI (ip_id p)].
+
+From P7 Require Import HeaderCodec.
+
+Definition t_sfolder (f : sfolder) : tree :=
+  TL [t_list t_coder (sf_coders f); t_list t_pair (sf_bonds f); t_Zs (sf_packed f); t_Zs (sf_unpacksizes f);
+      t_opt TI (sf_crc f)].
+Definition t_sheader (h : sheader) : tree :=
+  TL [t_bool (s_valid h); t_list t_plan (spec_plans h); TI (sh_packpos h); t_Zs (sh_packsizes h);
+      t_list (t_opt TI) (sh_packcrcs h); t_list t_sfolder (sh_folders h); t_Zs (sh_nums h); t_Zs (sh_sizes h);
+      t_list (t_opt TI) (sh_crcs h)].
+
+Definition assign_dispatch (fn : Z) (a : tree) : tree :=
+  match fn with
+  (* FN 160 spec_header : (lim bytes) -> res (valid plans packpos packsizes packcrcs folders nums sizes crcs) *)
+  | 160 => t_res t_sheader (s_header (of_TI (tnth a 0)) (of_bytes (tnth a 1)))
+  (* FN 161 impl_plans : header-tree -> res (list iplan) *)
+  | 161 => t_res (t_list t_iplan) (impl_plans (of_header a))
+  (* FN 162 impl_plans_of_bytes : (lim bytes) -> res (list iplan)  -- impl parser then impl assignment *)
+  | 162 => t_res (t_list t_iplan) (do h <- parse_header (of_TI (tnth a 0)) (of_bytes (tnth a 1)); impl_plans h)
+  | _ => TL [TI (-2)]
+  end.
